@@ -12,7 +12,7 @@ Section HM3.
   Variable vdflt : V.
   Variable keqb : K -> K -> bool.
   Variable khash : K -> Z.
-  Hypothesis keqb_refl : forall a, keqb a a = true.
+
   Hypothesis keqb_sym : forall a b, keqb a b = keqb b a.
   Hypothesis keqb_trans : forall a b c, keqb a b = true -> keqb b c = true -> keqb a c = true.
 
